@@ -28,6 +28,7 @@ RULE = (
     "datasets built in memory and on datasets written to netCDF and reopened: every key must equal the "
     "key of the untouched dataset.  Non-trivial: pairs differing in exactly one geometry feature; "
     "histories with an identity-changing operation between two keys."
+    ' Also: bounds held as coordinates, Fortran-ordered geometry arrays, first- and last-element edits of geometry variables larger than 1 MiB (420x400 grid).'
 )
 LEVEL_TEXT = ("complete edit tables (equal / different pattern) for every family, recomputed under 4 hash seeds in fresh "
               "interpreters, plus every key/copy/hold/assign history to depth 3/4 in two object-identity regimes")
